@@ -11,6 +11,7 @@ Reads tracing-appender/src/worker.rs and non_blocking.rs and emits coq/gen/Gen_n
   gen_nb_unrecognised : list nat      [] iff every function the model mirrors has exactly the shape the model was
                                       written against (bodies compared token-for-token after removing comments and
                                       white space).  Anything else fails closed: the tie is reported broken.
+  gen_default_cap, gen_default_lossy  NonBlockingBuilder::default() (DEFAULT_BUFFERED_LINES_LIMIT, is_lossy)
 
 main(repo, None) -> (text, unrecognised list)."""
 import os
@@ -186,6 +187,15 @@ DROPPED_LINES = "self.0.load(Ordering::Acquire)"
 
 MSG_ENUM = "Line(Vec<u8>), Shutdown,"
 
+# configuration plumbing: builder -> create, the defaults, the convenience constructors, MakeWriter
+NEW = "NonBlockingBuilder::default().finish(writer)"
+FINISH = "NonBlocking::create(writer, self.buffered_lines_limit, self.is_lossy, self.thread_name,)"
+SET_LIMIT = "self.buffered_lines_limit = buffered_lines_limit; self"
+SET_LOSSY = "self.is_lossy = is_lossy; self"
+DEFAULT = """NonBlockingBuilder { buffered_lines_limit: DEFAULT_BUFFERED_LINES_LIMIT, is_lossy: @L@, thread_name: "tracing-appender".to_string(), }"""
+MAKE_WRITER = "self.clone()"
+LIB_NON_BLOCKING = "NonBlocking::new(writer)"
+
 
 def _cmp(unrec, what, got, want):
     if got is None:
@@ -256,6 +266,26 @@ def main(repo, _unused=None):
             want = GUARD_DROP.replace("@A@", ms[0]).replace("@B@", ms[1])
             _cmp(unrec, "non_blocking.rs Drop for WorkerGuard", drop_body, want)
 
+    _cmp(unrec, "non_blocking.rs NonBlocking::new", fn_body(nb, "new", after="impl NonBlocking"), NEW)
+    _cmp(unrec, "non_blocking.rs NonBlockingBuilder::finish", fn_body(nb, "finish"), FINISH)
+    _cmp(unrec, "non_blocking.rs NonBlockingBuilder::buffered_lines_limit", fn_body(nb, "buffered_lines_limit", after="impl NonBlockingBuilder"), SET_LIMIT)
+    _cmp(unrec, "non_blocking.rs NonBlockingBuilder::lossy", fn_body(nb, "lossy", after="impl NonBlockingBuilder"), SET_LOSSY)
+    _cmp(unrec, "non_blocking.rs MakeWriter::make_writer", fn_body(nb, "make_writer"), MAKE_WRITER)
+    _cmp(unrec, "lib.rs non_blocking", fn_body(lib, "non_blocking"), LIB_NON_BLOCKING)
+    dcap, dlossy = 128000, True
+    mc = re.search(r"pub\s+const\s+DEFAULT_BUFFERED_LINES_LIMIT\s*:\s*usize\s*=\s*([0-9_]+)\s*;", nb)
+    if not mc:
+        unrec.append("non_blocking.rs DEFAULT_BUFFERED_LINES_LIMIT: not found")
+    else:
+        dcap = int(mc.group(1).replace("_", ""))
+    dbody = fn_body(nb, "default", after="impl Default for NonBlockingBuilder")
+    ml = re.search(r"is_lossy\s*:\s*(true|false)", dbody or "")
+    if not ml:
+        unrec.append("non_blocking.rs Default for NonBlockingBuilder: is_lossy literal not found")
+    else:
+        dlossy = ml.group(1) == "true"
+        _cmp(unrec, "non_blocking.rs Default for NonBlockingBuilder", dbody, DEFAULT.replace("@L@", ml.group(1)))
+
     m = re.search(r"pub\(crate\)\s+enum\s+Msg\b", lib)
     if not m:
         unrec.append("lib.rs enum Msg: not found")
@@ -271,6 +301,9 @@ def main(repo, _unused=None):
          "Definition gen_worker_variant : variant := %s." % (variant or "FlushErrLosesState"),
          "Definition gen_send_timeout_ms : N := %d%%N." % ta,
          "Definition gen_rdv_timeout_ms : N := %d%%N." % tb,
+         "(** NonBlockingBuilder::default(): what `NonBlocking::new` / `tracing_appender::non_blocking` configure *)",
+         "Definition gen_default_cap : N := %d%%N." % dcap,
+         "Definition gen_default_lossy : bool := %s." % ("true" if dlossy else "false"),
          "Definition gen_nb_unrecognised : list nat := %s." % ("[]" if not unrec else "[0]"),
          "Lemma gen_nb_recognised : gen_nb_unrecognised = [].",
          "Proof. reflexivity. Qed."]
